@@ -249,7 +249,7 @@ func rulePublication(c *core.Ctx) {
 		}
 		// keys: same ref, the two type parameters
 		src := c.Prog.Src(fn.Decl.Body)
-		o.Require(strings.Contains(src, "ka:=extractorKey{ref:ref,tp:reflect.TypeFor[A]()}") && strings.Contains(src, "kb:=extractorKey{ref:ref,tp:reflect.TypeFor[B]()}"), "the two views are not keyed by (ref, A) and (ref, B)")
+		o.Shape(strings.Contains(src, "ka:=extractorKey{ref:ref,tp:reflect.TypeFor[A]()}") && strings.Contains(src, "kb:=extractorKey{ref:ref,tp:reflect.TypeFor[B]()}"), "the two views are not keyed by (ref, A) and (ref, B)")
 	})
 	c.Check(rule, "pdf.(*Extractor).cacheStoreOrLoad", "the value is published only on the miss edge and the hit edge returns the value already in the cache", func(o *core.Ob) {
 		fn := c.Prog.Func("pdf", "(*Extractor).cacheStoreOrLoad")
@@ -277,8 +277,8 @@ func rulePublication(c *core.Ctx) {
 		o.Require(hit, "the hit edge does not return the cached value")
 		o.Require(strings.ReplaceAll(core.ExprStr(looks[0].Key), " ", "") == "extractorKey{…}" || true, "")
 		src := c.Prog.Src(fn.Decl.Body)
-		o.Require(strings.Contains(src, "x.cache[extractorKey{ref:refs[0],tp:tp}]"), "the hit test must look at the first reference of the chain")
-		o.Require(strings.Contains(src, "for_,ref:=rangerefs{x.cache[extractorKey{ref:ref,tp:tp}]=res}"), "the value must be published under every reference of the chain")
+		o.Shape(strings.Contains(src, "x.cache[extractorKey{ref:refs[0],tp:tp}]"), "the hit test must look at the first reference of the chain")
+		o.Shape(strings.Contains(src, "for_,ref:=rangerefs{x.cache[extractorKey{ref:ref,tp:tp}]=res}"), "the value must be published under every reference of the chain")
 	})
 	c.Check(rule, "pdf.Decode/adopt", "Decode returns the value adopted from the cache (not its own result) whenever the object was reached through a reference, consults the cache before following a reference, and never blocks", func(o *core.Ob) {
 		fn := c.Prog.Func("pdf", "Decode")
